@@ -1151,6 +1151,12 @@ func (g *Gen) siteClauses(b *ssa.BasicBlock, ins ssa.CallInstruction, st *State,
 					vars[fmt.Sprintf("$sel%d", k)] = v.Tuple[0]
 				}
 			}
+			// $callee: the function value of a dynamic call
+			if !cc.IsInvoke() && cc.StaticCallee() == nil {
+				if v, ok := g.valOpt(cc.Value); ok {
+					vars["$callee"] = v
+				}
+			}
 			// call arguments by the callee's formal names are also visible as $0, $1, ...
 			for i, a := range cc.Args {
 				if v, ok := g.valOpt(a); ok {
